@@ -173,7 +173,8 @@ def hostile_payloads() -> List[tuple]:
                   [{"processor": "FloatMultiplyOperation", "parameters": {"factor": 2.0}}],
                   [{"processor": 'template:"{mixed}-{tup}-{sur}":label'}],
                   [{"processor": 'template:"{nan}/{inf}":label'}, {"processor": "FloatMultiplyOperation", "parameters": {"factor": float("inf")}}],
-                  [{"processor": "FloatCollectValueProbe", "context_key": "a"}, {"processor": "VBoomOperation"}]]       # reads the awkward values as parameters
+                  [{"processor": "FloatCollectValueProbe", "context_key": "a"}, {"processor": "VBoomOperation"}],       # reads the awkward values as parameters
+                  [{"processor": "VHandleProbe", "context_key": "spool"}, {"processor": "VHandleProbe", "context_key": "spool"}]]     # a node CREATES, then REPLACES, a context value that cannot be described
     # sweeps over values that are not JSON types: what YAML itself yields for an unquoted date / timestamp / !!binary,
     # and what the Python API allows (tuples, complex numbers, sets)
     import datetime as _dt
@@ -227,6 +228,55 @@ def hostile_payloads() -> List[tuple]:
                              f"{nodes} with misbehaving payload hooks: untraced {un['raised'] or un['final']} vs traced(detail={detail}) {tr['raised'] or tr['final']}; generator left {gen_left}",
                              {"nodes": nodes, "detail": detail}))
     return viol
+
+
+LOCALE_CHILD = r"""
+import json, logging, sys, tempfile
+logging.disable(logging.CRITICAL)
+sys.path.insert(0, sys.argv[1])
+from vharness import seams; seams.setup()
+from vharness.seams import run_nodes
+from vharness.traced import run_traced
+nodes = [{"processor": "FloatValueDataSource", "parameters": {"value": 2.0}}, {"processor": 'template:"größe={größe}":label'},
+         {"processor": "FloatCollectValueProbe", "context_key": "測定"}]
+out = []
+for detail in ("hash", "repr", "context", "all"):
+    un = run_nodes(nodes, None, {"größe": 1.5, "café": "é…"})
+    tr = run_traced(nodes, None, {"größe": 1.5, "café": "é…"}, detail=detail)
+    out.append({"detail": detail, "un": un["raised"], "tr": tr["raised"], "same": un["final"] == tr["final"], "records": len(tr["records"]),
+                "read_error": tr.get("read_error")})
+import locale
+print("LOCALE-RESULT " + json.dumps({"encoding": locale.getpreferredencoding(False), "runs": out}))
+"""
+
+
+def locale_check(run) -> None:
+    """ENVIRONMENT: tracing is observational whatever the locale: in an interpreter whose preferred encoding is not UTF-8
+    (LC_ALL=C, UTF-8 mode and locale coercion off) a pipeline whose context keys / values / rendered strings are not ASCII
+    returns the same traced and untraced, and the trace can be read back."""
+    import json as _json
+    import os as _os
+    import subprocess
+    import sys
+    from pathlib import Path
+    hdir = str(Path(__file__).resolve().parents[2])
+    env = dict(_os.environ, LC_ALL="C", LANG="C", PYTHONUTF8="0", PYTHONCOERCECLOCALE="0", PYTHONIOENCODING="utf-8")
+    import tempfile as _tf
+    with _tf.TemporaryDirectory(prefix="vlocale-") as td:      # (a script FILE: source files are UTF-8 whatever the locale)
+        script = Path(td) / "child.py"
+        script.write_text(LOCALE_CHILD, encoding="utf-8")
+        p = subprocess.run([sys.executable, str(script), hdir], capture_output=True, text=True, timeout=300, env=env, encoding="utf-8", errors="replace")
+    line = next((l for l in p.stdout.splitlines() if l.startswith("LOCALE-RESULT ")), None)
+    if line is None:
+        raise core.MachineryError(f"locale child produced no result: {p.stderr[-500:]}")
+    res = _json.loads(line[len("LOCALE-RESULT "):])
+    run.extra["non_utf8_locale"] = {"preferred_encoding": res["encoding"], "runs": len(res["runs"])}
+    for r in res["runs"]:
+        run.evaluations += 1
+        if r["un"] != r["tr"] or not r["same"] or r["read_error"] or (r["tr"] is None and r["records"] < 5):
+            run.violation(f"environment:locale:{r['detail']}", f"preferred encoding {res['encoding']}, detail={r['detail']}: untraced "
+                          f"{'raised ' + str(r['un']) if r['un'] else 'returned'}, traced {'raised ' + str(r['tr']) if r['tr'] else 'returned'}"
+                          f" (same result: {r['same']}, records read back: {r['records']}, read error: {r['read_error']})", {"locale": True})
 
 
 # ---- history in a FRESH interpreter: trace(B | nothing ran before) = trace(B | A1, A2, ... ran before) ----------
@@ -369,6 +419,7 @@ def check(tier: str) -> int:
                        "payload types whose repr() mutates them are out of scope"]
     tlc_checks(run, tier)
     seed = core.seed()
+    locale_check(run)
     for key, what, rep in hostile_payloads():
         run.violation(key, what, rep)
     fresh_history_checks(run, tier)
